@@ -112,7 +112,7 @@ def run(rep, tier, seed, model_ok=True, effort=1):
     n = (1500 if tier == "quick" else 20000) * effort
     rep.rule = ("seeded PEP 440 strings (epochs, pre/post/dev/local, alternate spellings, separators, leading zeros, case, whitespace) and "
                 "legacy strings (bumpver-style, mutated PEP 440, arbitrary text): key and str() compared with the model inside Coq, "
-                "pairwise comparison results compared with cmp_key, order laws on triples, packaging.version as secondary oracle; "
+                "pairwise comparison results compared with cmp_key, order laws on triples, packaging.version as secondary oracle; every string parsed twice (same key); "
                 "non-trivial = distinct string; pairs/triples counted separately in the distribution")
     strs = []
     seen = set()
